@@ -218,6 +218,21 @@ def run(ctx):
     for (k, a_), (k2, b_) in zip(ps, pr):
         conv = [_conv(x, mp) for x in a_]
         ctx.check("R23.3", f"{MOD}::_send/_recv protocol for `{k}`", conv == b_ and k == k2, f"send side {a_} vs receive side {b_}", snd)
+    # every point-to-point call names its peer: the receive must come from the pairing partner, not from whoever sends first
+    for fi, kinds, peer in ((snd, ("send", "Send"), "dest"), (rcv, ("recv", "Recv"), "source")):
+        pp = fi.params()
+        pname = peer if peer in pp else None
+        for c in [c for c in ast.walk(fi.node) if isinstance(c, ast.Call) and isinstance(c.func, ast.Attribute) and c.func.attr in kinds
+                  and src(c.func.value) == pp[0]]:
+            named = any(kw.arg == peer and src(kw.value) == pname for kw in c.keywords) or \
+                any(isinstance(a, ast.Name) and a.id == pname for a in c.args)
+            ctx.check("R23.3", f"{fi.key}::`{short(c, 50)}` addresses the pairing partner (`{peer}`)", named and pname is not None,
+                      f"the {peer} is not passed: a receive from any source takes whichever message arrives first, so the value that is "
+                      "added depends on the schedule" if peer == "source" else f"the {peer} is not passed", fi, c)
+        for c in [c for c in ast.walk(fi.node) if isinstance(c, ast.Call) and call_name(c) == fi.name]:
+            a = [src(x) for x in c.args] + [f"{k.arg}={src(k.value)}" for k in c.keywords]
+            ctx.check("R23.3", f"{fi.key}::nested `{short(c, 50)}` keeps communicator and partner",
+                      a[0] == pp[0] and (pname in a or f"{peer}={pname}" in a), str(a), fi, c)
     # _bcast: collectives not guarded by rank-dependent conditions
     bcfg = cfg_of(bc)
     from ..taint import Taint
@@ -264,6 +279,64 @@ def run(ctx):
                       src(v), ars, r.ast)
         else:
             ctx.check("R23.4", f"{ars.key}::single-process result is slot 0", src(v) == "vals[0]", src(v), ars, r.ast)
+    # slot layout: the list entering the pairing loop is exactly the local summands padded with None at the global positions;
+    # nothing is pre-reduced locally (that would change the summation tree for some partitions)
+    rdv = cfg.reaching_defs(ars.params(), disabled=dis)
+    REDUCERS = {"allreduce_sum", "sum", "my_sum", "reduce", "fsum", "add"}
+
+    def classify_vals_def(e):
+        """'raw' | 'pad' | 'reduced' | None"""
+        if isinstance(e, ast.Call) and isinstance(e.func, ast.Name) and e.func.id in ("list", "tuple") and len(e.args) == 1 \
+                and isinstance(e.args[0], ast.Name) and e.args[0].id == ars.params()[0]:
+            return "raw"
+        if any(isinstance(c, ast.Call) and call_name(c) in REDUCERS for c in ast.walk(e)):
+            return "reduced"
+        parts = []
+
+        def flat(x):
+            if isinstance(x, ast.BinOp) and isinstance(x.op, ast.Add):
+                flat(x.left)
+                flat(x.right)
+            else:
+                parts.append(x)
+        flat(e)
+        if len(parts) >= 2 and all((isinstance(p_, ast.Name) and p_.id == "vals") or
+                                   (isinstance(p_, ast.BinOp) and isinstance(p_.op, ast.Mult) and src(p_.left) == "[None]") for p_ in parts) \
+                and sum(isinstance(p_, ast.Name) for p_ in parts) == 1:
+            return "pad"
+        return None
+    verdict, forms = True, []
+    todo = [(W.id, "vals")]
+    visited = set()
+    while todo:
+        nid, nm = todo.pop()
+        for d in (rdv[nid] or {}).get(nm, frozenset()):
+            if d in visited:
+                continue
+            visited.add(d)
+            dn = cfg.nodes[d]
+            if dn.kind != "stmt" or not isinstance(dn.ast, ast.Assign) or not isinstance(dn.ast.targets[0], ast.Name):
+                continue
+            k = classify_vals_def(dn.ast.value)
+            forms.append((src(dn.ast.value)[:60], k))
+            if k == "reduced":
+                verdict = False
+            elif k is None and verdict:
+                verdict = None
+            elif k == "pad":
+                todo.append((d, "vals"))
+    ctx.check("R23.4", f"{ars.key}::slots entering the pairing loop are the raw local summands at their global positions", verdict if forms else None,
+              f"definitions of vals reaching the loop: {forms}: a local pre-reduction changes the summation tree (and with it the rounding) "
+              "for the partitions it applies to", ars)
+    cnt_defs = [n for n in cfg.nodes if n.id in reach and n.kind == "stmt" and isinstance(n.ast, ast.Assign)
+                and any(isinstance(t, ast.Name) and t.id == "nobj_list" for t in n.ast.targets)]
+    cv = True
+    for n in cnt_defs:
+        if any(isinstance(c, ast.Call) and call_name(c) == "allgather" for c in ast.walk(n.ast.value)):
+            continue
+        cv = None if isinstance(n.ast.value, ast.Name) and cv else False
+    ctx.check("R23.4", f"{ars.key}::global slot counts come from the allgather of the local counts only", cv if cnt_defs else None,
+              str([src(n.ast.value) for n in cnt_defs]), ars)
     # one loop for both cases: the while loop is reachable with comm None as well
     dis0 = at.disabled_edges(cfg, {"comm": "none"})
     ctx.check("R23.4", f"{ars.key}::the same pairing loop serves comm=None", W.id in cfg.reachable(cfg.entry.id, disabled=dis0), None, ars)
